@@ -171,7 +171,7 @@ func runC03(c *Ctx) {
 	if f := c.A.Func("(*Conn).handleStartTLS"); f != nil {
 		c.obFollow("TLS upgrade then reset", f, c.direct("st:Conn.conn"), []string{lReset}, nil, nil)
 		c.obFollow("TLS upgrade then helo cleared", f, c.direct("st:Conn.conn"), []string{`st:Conn.helo=""`}, nil, nil)
-		c.obFollow("TLS upgrade then Logout", f, c.direct("st:Conn.conn"), []string{lLogout}, c.F.SkipUnder(`(*Conn).Session(param0) != nil`), nil)
+		c.obFollow("TLS upgrade then Logout", f, c.direct("st:Conn.conn"), []string{lLogout}, c.F.SkipUnder(`Conn.session != nil`), nil)
 	}
 
 	R.Rule("R-refusal-no-callback", "E2 never-after", "after a refusal reply (constant code >= 400) no callback or state-advancing store follows before the handler returns or reads the next line", 40)
